@@ -54,12 +54,20 @@ pub fn image(journal: &[Ev], cp: &CrashPoint) -> Tree {
             let durable = t.durable_len.get(&n).copied().unwrap_or(0) as usize;
             let len = t.files[&n].len();
             if len > durable {
-                let keep = match rng.usize(3) {
-                    0 => durable,
-                    1 => durable + (len - durable) / 2,
-                    _ => len,
-                };
-                t.files.get_mut(&n).unwrap().truncate(keep);
+                // the un-synced end of a file: cut back to any length >= the synced one, or kept
+                // in length with its bytes never written (zero-filled from some point on: the
+                // size update reached the disk, the data did not)
+                match rng.usize(5) {
+                    0 => t.files.get_mut(&n).unwrap().truncate(durable),
+                    1 => t.files.get_mut(&n).unwrap().truncate(durable + (len - durable) / 2),
+                    2 | 3 => {}
+                    _ => {
+                        let from = durable + rng.usize(len - durable);
+                        for b in &mut t.files.get_mut(&n).unwrap()[from..] {
+                            *b = 0;
+                        }
+                    }
+                }
             }
         }
     }
